@@ -1,5 +1,12 @@
 package main
 
+import (
+	"encoding/json"
+	"fmt"
+	"os"
+	"os/exec"
+)
+
 // Structural obligations: whole-package SSA scans that are not SMT queries
 // (write-site frames, lock discipline). Filled in per property.
 
@@ -17,4 +24,42 @@ func runStructural(ld *Loaded, sf *SpecFile, prop string) []StructObl {
 // Returns true if a failing input was demonstrated on the real code.
 func tryReplay(opt *Options, ld *Loaded, sf *SpecFile, o *Obl, rep map[string]interface{}) bool {
 	return false
+}
+
+// replayFile re-runs a recorded violation: prints the failed obligation with the solver's
+// output and, when a replay test is attached, runs it against the real code.
+func replayFile(opt *Options, path string) int {
+	data, err := os.ReadFile(path)
+	if err != nil {
+		fmt.Println("ERROR:", err)
+		return 2
+	}
+	var rep map[string]interface{}
+	if err := json.Unmarshal(data, &rep); err != nil {
+		fmt.Println("ERROR:", err)
+		return 2
+	}
+	fmt.Printf("property:   %v\nobligation: %v\nat:         %v\nresult:     %v (%v)\n", rep["property"], rep["obligation"], rep["at"], rep["result"], rep["solver"])
+	if m, ok := rep["model"].(string); ok && m != "" {
+		fmt.Printf("solver model (restricted):\n%s\n", m)
+	}
+	if in, ok := rep["inputs"]; ok {
+		b, _ := json.MarshalIndent(in, "", " ")
+		fmt.Printf("inputs extracted from the model:\n%s\n", b)
+	}
+	tf, _ := rep["replay_test"].(string)
+	tn, _ := rep["replay_test_name"].(string)
+	if tf == "" {
+		fmt.Println("no-failing-input-found: no executable replay attached; the obligation and the solver output above are the evidence")
+		return 1
+	}
+	cmd := exec.Command(opt.verifDir+"/tools/replay.sh", tf, tn, opt.repo)
+	out, err := cmd.CombinedOutput()
+	fmt.Print(string(out))
+	if err != nil {
+		fmt.Println("replay: the real code violates the property on this input")
+		return 1
+	}
+	fmt.Println("replay: the real code does not fail on this input (any more)")
+	return 0
 }
